@@ -192,7 +192,7 @@ def run(res):
                 for m in b: bad.append((ops0, m))
         res.cov["failing_input_search_histories"] = len(extra[:72])
     if not bad:
-        # undelete (not modelled): after restoring entries, later allocations must not land on their blocks
+        # undelete (AdfModel/Salv.lean, write-set theorems in AdfProps/C18): after restoring entries, later allocations must not land on their blocks
         for o, m in undel.probe(res, exe, 10 if res.tier == "quick" else 150):
             if "later write landed" in m or "marked free" in m or "reached twice" in m: bad.append((o, m))
     if bad:
@@ -205,6 +205,8 @@ def run(res):
         w = other or f"op[{tie[0]}] '{tie[3][tie[0]] if tie[0] < len(tie[3]) else '?'}' C {tie[1][:2]} / model {tie[2][:2]}"
         res.violation(f"correspondence (order and content hash of every block write) broken on {len(ties)} of {len(specs)} histories: {w}",
                       dict(kind="correspondence", ops=ops, detail=str(w)), False)
+    else:
+        undel.tie_report(res, exe, 10 if res.tier == "quick" else 100)
 
 def judge_partial(ops, cb, paths, ops0, san, crash):
     """the operations that completed are judged also when the library did not return from a later one (time limit)"""
